@@ -38,6 +38,7 @@ THEMES["TU"] = TU
 # of the HTML-breakout rule has a fragment-case clause whose reading I could not settle offline (DESIGN section 9)
 TUF = [l for l in TU if l not in ("<svg>", "<math>")]
 THEMES["TUF"] = TUF
+THEMES["T8F"] = [l for l in T8 if l not in ("<svg>", "<math>")]
 
 CTX = ["div", "body", "head", "html", "title", "textarea", "style", "script", "xmp", "iframe", "noembed", "noframes",
        "noscript", "plaintext", "table", "tbody", "tfoot", "thead", "tr", "td", "th", "caption", "colgroup", "select",
